@@ -21,6 +21,8 @@ Some of it can/could be derived based on data within the overall file; however, 
 and it is always necessary to retain this type of data while reading the file.
 """
 
+import numpy as np
+
 from armi import runLog
 from armi.utils import properties
 
@@ -237,11 +239,10 @@ class RegionXSMetadata(FileMetadata):
         FileMetadata._mergeLibrarySpecificData(
             self, other, selfContainer, otherContainer, mergedData
         )
-        for datum in COMPXS_POWER_CONVERSION_FACTORS:
-            mergedData[datum] = self[datum] + other[datum]
-        mergedData["compFamiliesWithPrecursors"] = (
-            self["compFamiliesWithPrecursors"] + other["compFamiliesWithPrecursors"]
-        )
+        # one entry per region: the merged library holds the regions of both, so join the vectors
+        # (the readers return numpy arrays, for which ``+`` would add the entries instead)
+        for datum in COMPXS_POWER_CONVERSION_FACTORS + ["compFamiliesWithPrecursors"]:
+            mergedData[datum] = np.concatenate((self[datum], other[datum]))
         mergedData["numFissComps"] = self["numFissComps"] + other["numFissComps"]
 
     def _getSkippedKeys(self, other, selfContainer, otherContainer, mergedData):
